@@ -521,3 +521,58 @@ pub fn persist_step(s: &mut Src, sh: &Shape, idx_off: u64, term: u64) {
     vcover!(true, "done");
     forget(r);
 }
+
+/// Heartbeat response from a peer whose next entries were compacted away (C15-lsnap).
+/// (Targeted post-conditions only: which error kind a `Result` carries does not constant-fold
+/// in CBMC, so the number of emitted messages is symbolic here and the generic message walk
+/// of `leader_post` would be executed over a symbolic-length vector.)
+pub fn hbresp_step_snap(s: &mut Src, sh: &Shape, from: u64, snapshot_available: bool) {
+    let (mut r, g) = mk_raft(s, sh);
+    if snapshot_available {
+        let st = r.mut_store();
+        st.snapshot_mode = 1;
+        st.snapshot_index = g.committed;
+        st.snapshot_term = g.term_at(g.committed).unwrap();
+    }
+    let m = msg(MessageType::MsgHeartbeatResponse, from, r.term);
+    let p0 = r.prs().get(from).unwrap().clone();
+    let term0 = r.term;
+    let res = r.step(m);
+    assert!(res.is_ok());
+    assert!(r.state == StateRole::Leader && r.term == term0 && r.raft_log.last_index() == g.last() && r.raft_log.committed == g.committed);
+    let p1 = r.prs().get(from).unwrap();
+    if snapshot_available && p0.recent_active {
+        assert!(r.msgs.len() == 1, "exactly one message: the snapshot");
+        let q = &r.msgs[0];
+        assert!(q.get_msg_type() == MessageType::MsgSnapshot && q.to == from && q.term == term0, "needed entries are compacted: a snapshot must be sent");
+        let md = q.snapshot.as_ref().unwrap().metadata.as_ref().unwrap();
+        assert!(md.index == g.committed && Some(md.term) == g.term_at(g.committed), "snapshot metadata is not a committed position of the leader");
+        assert!(p1.state == ProgressState::Snapshot && p1.pending_snapshot == g.committed && p1.ins.count() == 0);
+    } else {
+        assert!(r.msgs.is_empty() && p1.state == p0.state && p1.next_idx == p0.next_idx);
+    }
+    vcover!(true, "done");
+    forget(r);
+}
+
+pub fn dbg_snap(s: &mut Src, sh: &Shape) {
+    let (mut r, g) = mk_raft(s, sh);
+    {
+        let st = r.mut_store();
+        st.snapshot_mode = 1;
+        st.snapshot_index = g.committed;
+        st.snapshot_term = 2;
+    }
+    let m = msg(MessageType::MsgHeartbeatResponse, 2, r.term);
+    let res = r.step(m);
+    if r.msgs.len() != 1 {
+        assert!(crate::c02::marker_a() == 3);
+    }
+    if r.prs().get(2).unwrap().state != ProgressState::Snapshot {
+        assert!(crate::c02::marker_b() == 3);
+    }
+    if r.prs().get(2).unwrap().pending_snapshot != 3 {
+        assert!(crate::c02::marker_c() == 3);
+    }
+    forget(r);
+}
